@@ -391,6 +391,27 @@ def _precedence_family():
 
 HANDWRITTEN_GENERIC += _precedence_family()
 HANDWRITTEN_GENERIC += [
+    # masking idioms: a boolean times / plus a real value, in both operand orders, as a column and folded
+    "Select(EventDataset('ds'), lambda e: e.PRIM('A').Select(lambda j: (j.pt() > 1.5) * j.pt()))",
+    "Select(EventDataset('ds'), lambda e: e.PRIM('A').Select(lambda j: j.pt() * (j.pt() > 1.5)))",
+    "Select(EventDataset('ds'), lambda e: e.PRIM('A').Select(lambda j: j.isGood() * j.ptf() + (j.eta() > 0) * 2.5))",
+    "Select(EventDataset('ds'), lambda e: e.PRIM('A').Select(lambda j: (j.pt() > 1.5) * j.pt()).Sum())",
+    "Select(EventDataset('ds'), lambda e: e.PRIM('A').Select(lambda j: (j.pt() > 1.5) - j.pt() / 2).Sum())",
+    # a sequence bound to a lambda parameter and used more than once (side by side, under a conditional, at different depths)
+    "Select(Select(EventDataset('ds'), lambda e: e.PRIM('A')), lambda js: (js.Where(lambda t: t.pt() > 1.5).Count(), js.Count()))",
+    "Select(Select(EventDataset('ds'), lambda e: e.PRIM('A')), lambda js: {'a': js.Where(lambda t: t.pt() > 1.5).Count() if js.Count() > 1 else 0, 'b': js.Count()})",
+    "Select(Select(EventDataset('ds'), lambda e: e.SEC('B')), lambda ts: {'n_sel': (ts.Where(lambda t: t.pt() > 1.5).Count() if 1 > 0 else 0), 'n_all': ts.Count()})",
+    "Select(Select(EventDataset('ds'), lambda e: e.PRIM('A')), lambda js: (js.Select(lambda j: j.pt()), js.Select(lambda j: j.eta()), js.Count()))",
+    "Select(Select(EventDataset('ds'), lambda e: (e.PRIM('A'), e.SEC('B'))), lambda p: (p[0].Select(lambda j: p[1].Count()), p[1].Count()))",
+]
+# the same sequence variable iterated INSIDE an iteration over itself (known finding KF-sequence-variable-self-join)
+SELF_JOIN_VIA_VARIABLE = [
+    "Select(Select(EventDataset('ds'), lambda e: e.PRIM('A')), lambda js: js.Select(lambda j: js.Where(lambda k: k.pt() > j.pt()).Count()))",
+    "Select(Select(EventDataset('ds'), lambda e: e.PRIM('A')), lambda js: js.Select(lambda j: js.Count()))",
+    "Select(Select(EventDataset('ds'), lambda e: e.PRIM('A').Where(lambda j: j.pt() > 1.5)), lambda js: js.Select(lambda j: js.Select(lambda k: k.pt() + j.pt()).Sum()))",
+]
+HANDWRITTEN_GENERIC += SELF_JOIN_VIA_VARIABLE
+HANDWRITTEN_GENERIC += [
     # the same collection (same bank) used twice, the first use in a deeper block than the second; several columns from different loops
     "Select(EventDataset('ds'), lambda e: (e.SEC('B').Select(lambda t: e.PRIM('A').Where(lambda j: j.pt() > t.pt()).Count()), e.PRIM('A').Count()))",
     "Select(EventDataset('ds'), lambda e: (e.SEC('B').Select(lambda t: e.PRIM('A').Count()), e.PRIM('A').Select(lambda j: j.pt())))",
@@ -497,6 +518,14 @@ def c03_programs(backend, tier):
         add(f"Select(SelectMany(EventDataset('ds'), lambda e: e.PRIM('A')), lambda j: ({xa}, {xb}))")
         add(f"Select(SelectMany(EventDataset('ds'), lambda e: e.PRIM('A')), lambda j: {{'second': {xb}, 'first': {xa}}})")
         add(f"ResultTTree(Select(EventDataset('ds'), lambda e: (e.PRIM('A').Select(lambda j: {xa}), e.PRIM('A').Select(lambda j: {xb}))), ('ca', 'cb'), 'tree_x', 'file.root')")
+    # labels that differ only in characters that cannot appear in a C++ identifier: each still has its own storage
+    for names in (("jet.pt", "jet_pt", "n"), ("el-eta", "el eta", "el_eta"), ("a b", "a.b", "a-b"), ("x1", "x", "x11"), ("pt", "pt2", "pt22")):
+        add(f"ResultTTree(Select(EventDataset('ds'), lambda e: (e.PRIM('A').Select(lambda j: j.pt()), e.PRIM('A').Select(lambda j: j.pt() / 2), e.PRIM('A').Count())), {names!r}, 'tt', 'f.root')", tags=("labels",))
+        add(f"ResultTTree(Select(SelectMany(EventDataset('ds'), lambda e: e.PRIM('A')), lambda j: (j.pt(), j.eta(), j.nTrk())), {names!r}, 'tt', 'f.root')", tags=("labels",))
+    # dict / tuple streams with an explicit label list of the wrong length must be refused
+    for nm in (["a"], ["a", "b", "c"]):
+        add(f"ResultTTree(Select(SelectMany(EventDataset('ds'), lambda e: e.PRIM('A')), lambda j: {{'pt': j.pt(), 'eta': j.eta()}}), {nm!r}, 'tt', 'f.root')", tags=("must_raise",))
+        add(f"ResultTTree(Select(EventDataset('ds'), lambda e: {{'pt': e.PRIM('A').Select(lambda j: j.pt()), 'n': e.PRIM('A').Count()}}), {nm!r}, 'tt', 'f.root')", tags=("must_raise",))
     # explicit names: n names for m columns, n, m <= 3
     cols = ["e.PRIM('A').Count()", "e.PRIM('A').Select(lambda j: j.pt())", "e.SEC('B').Count()"]
     names = ["n1", "n2", "n3"]
@@ -506,6 +535,8 @@ def c03_programs(backend, tier):
             nm = repr(names[0]) if n == 1 else repr(tuple(names[:n]))
             add(f"ResultTTree(Select(EventDataset('ds'), lambda e: {body}), {nm}, 'tt', 'f.root')",
                 tags=() if n == m else ("must_raise",))
+    # declared tree types (shared with C10)
+    out += [p_ for p_ in c10_programs(backend) if "tree_type" in p_.tags]
     return out
 
 
@@ -558,6 +589,13 @@ def c04_programs(backend, tier):
     ]
     for q in qs:
         add(q)
+    # subscript on a LINQ sequence (not promised by the documentation: refusing is fine, a wrong guard is not)
+    for q in ("Select(EventDataset('ds'), lambda e: e.PRIM('A').Select(lambda j: j.pt())[1])",
+              "Select(EventDataset('ds'), lambda e: (e.PRIM('A').Select(lambda j: j.pt())[1], e.PRIM('A').Count()))",
+              "Select(EventDataset('ds'), lambda e: e.PRIM('A').Where(lambda j: j.pt() > 1.5).Select(lambda j: j.eta())[0])",
+              "Select(EventDataset('ds'), lambda e: e.PRIM('A')[1].pt())",
+              "Select(Where(EventDataset('ds'), lambda e: e.PRIM('A').Count() > 1), lambda e: e.PRIM('A').Select(lambda j: j.pt())[1])"):
+        add(q, tags=("optional", "subscript"))
     # systematic: every partial operation in every position of every lazy construct
     partial_e = {   # event-level partial expressions and the guard that makes them defined
         "first": ("e.PRIM('A').First().pt()", "e.PRIM('A').Count() > 0"),
@@ -666,6 +704,10 @@ def c12_programs(backend, names=None):
             out.append(make_program(q, backend, label=fn, tags=("math:" + fn, tag)))
     q = f"Select(EventDataset('ds'), lambda e: e.{P}('A').Select(lambda j: j.pt() ** 2))"
     out.append(make_program(q, backend, label="**", tags=("math:pow", "operator")))
+    if True:
+        # documented names whose C signature has a pointer / string parameter: no numeric call can be valid C++ (known finding)
+        out.append(make_program(f"Select(EventDataset('ds'), lambda e: e.{P}('A').Select(lambda j: remquo(j.pt(), j.eta())))", backend, label="remquo", tags=("math:remquo", "signature")))
+        out.append(make_program(f"Select(EventDataset('ds'), lambda e: e.{P}('A').Select(lambda j: nan(j.pt())))", backend, label="nan", tags=("math:nan", "signature")))
     return out
 
 
@@ -688,6 +730,10 @@ def c13_programs(backend, tier):
                 if ka == "intlit" and kb == "intlit":
                     continue
                 add(f"{a} {op} {b}", ("binop", op, ka, kb))
+    # python builtins the documentation does not list: refusing is fine, accepting them with C++ integer semantics is not
+    for expr in ("int(j.pt()) / 2", "int(j.pt())", "float(j.nTrk()) / 2", "max(j.pt(), 2)", "min(j.nTrk(), 2.5)", "max(j.pt(), j.eta())",
+                 "round(j.pt()) / 2", "int(j.pt()) % 2", "abs(int(j.pt())) / 2"):
+        add(expr, ("builtin", "optional"))
     # '**' is a real power: over the whole 32-bit range of an integer base (programs without other integer arithmetic)
     for expr in ("j.nTrk() ** 2", "j.nTrk() ** 3", "j.nTrk() ** 2 / 2.0", "(j.nTrk() ** 2) > 1.5", "j.nTrk() ** j.nTrk()"):
         add(expr, ("pow", "wideint"))
@@ -794,6 +840,16 @@ def c18_programs(backend):
             out.append(make_program(f"Select(EventDataset('ds'), lambda e: {k})", backend, tags=tags))
             out.append(make_program(f"Select(EventDataset('ds'), lambda e: e.PRIM('A').Select(lambda j: {k}))".replace("PRIM", P), backend, tags=tags))
             out.append(make_program(f"Select(EventDataset('ds'), lambda e: ({k}, 1, e.PRIM('A').Count()))".replace("PRIM", P), backend, tags=tags))
+    # strings with sequences that mean something to C++ / to a line-based emitter, in the positions whose text is pasted into a
+    # verbatim C++ statement (bank name; attribute name on ATLAS); the string must arrive character for character
+    curated = ["a // b", "root://x//y", " //", "a /* b", "*/", "a;b", "a; //", "%d %s", "{{x}}", "{% y %}", "#include", "a\\", "??/", "a\"b", "\\n", "'", "a  b", " lead", "trail ", "//", "/"]
+    for st in curated:
+        lit = repr(st)
+        out.append(make_program(f"Select(EventDataset('ds'), lambda e: e.PRIM({lit}).Count())".replace("PRIM", P), backend, tags=("literals", "string")))
+        out.append(make_program(f"Select(EventDataset('ds'), lambda e: (e.PRIM({lit}).Count(), e.PRIM('plain').Select(lambda j: j.pt())))".replace("PRIM", P), backend, tags=("literals", "string")))
+        if backend == "atlas":
+            out.append(make_program(f"Select(EventDataset('ds'), lambda e: e.PRIM('A').Select(lambda j: j.getAttributeFloat({lit})))".replace("PRIM", P), backend, tags=("literals", "string")))
+            out.append(make_program(f"Select(EventDataset('ds'), lambda e: e.PRIM('A').Select(lambda j: j.getAttributeFloat({lit}) + j.getAttributeFloat('other')))".replace("PRIM", P), backend, tags=("literals", "string")))
     # negative literals, as source text (-5 = unary minus of 5) and as the single constant node a captured python
     # variable becomes ('fold_neg'), in every operator context: the literal must not fuse with what precedes it
     negs = ["-5", "-1.5", "-0.0", "-2147483647", "-1e-05"]
@@ -897,6 +953,17 @@ def c10_programs(backend):
         enn = {ns + ".Algo": (ns, ["AntiKt", "CamKt"])}
         prog(f"Select(EventDataset('ds'), lambda e: e.PRIM('A').Where(lambda j: j.algo() == {ns}.Algo.AntiKt).Count())", [(E, MethodSpec("algo", TNum("int")))], enums=enn, tags=("enum", f"{depth}level", "compare"))
         prog(f"Select(EventDataset('ds'), lambda e: e.PRIM('A').Select(lambda j: j.weight({ns}.Algo.CamKt)))", [], enums=enn, tags=("enum", f"{depth}level", "argument"))
+    # an enum value as an output column / inside a tuple (the column is declared with the enum's C++ type)
+    prog("Select(EventDataset('ds'), lambda e: e.PRIM('A').Select(lambda j: xAOD.Jet.Color.Red))", [], enums=en, tags=("enum", "output"))
+    prog("Select(SelectMany(EventDataset('ds'), lambda e: e.PRIM('A')), lambda j: (xAOD.Jet.Color.Blue, j.pt()))", [], enums=en, tags=("enum", "output"))
+    # collections returned through two pointer levels
+    for name, t in (("cpp2", TColl("std::vector<float>", TNum("float"), 2)), ("cop2", TColl(f"std::vector<{T}*>", TObj(T, 1), 2))):
+        ms = MethodSpec(name, t)
+        num = isinstance(t.elem, TNum)
+        el = "v" if num else "v.x()"
+        prog(f"Select(EventDataset('ds'), lambda e: e.PRIM('A').Select(lambda j: j.{name}().Count()))", [(E, ms)], tags=(name, "count"))
+        prog(f"Select(EventDataset('ds'), lambda e: e.PRIM('A').Select(lambda j: j.{name}().Select(lambda v: {el})))", [(E, ms)], tags=(name, "select"))
+        prog(f"Select(EventDataset('ds'), lambda e: e.PRIM('A').Where(lambda j: j.{name}().Count() > 1).Select(lambda j: j.{name}()[1]{'' if num else '.x()'}))", [(E, ms)], tags=(name, "index"))
     # two enums in sibling namespaces with a common prefix and equal value names
     en2 = {"xAOD.Jet.Color": ("xAOD.Jet", ["Red", "Blue"]), "xAOD.Track.Color": ("xAOD.Track", ["Red", "Green"])}
     prog("Select(EventDataset('ds'), lambda e: e.PRIM('A').Select(lambda j: j.weight(xAOD.Jet.Color.Red) + j.weight(xAOD.Track.Color.Red)))", [], enums=en2, tags=("enum", "siblings"))
@@ -1000,6 +1067,9 @@ def c09_programs(backend, tier):
         "j.vals()[0:2]", "j.vals()[1:]",
         "e.PRIM('A') + 1", "1 - e.PRIM('A')", "e.PRIM('A') * 2", "e.PRIM('A') / 2", "2 / e.PRIM('A')", "e.PRIM('A') % 2", "e.PRIM('A') ** 2",
         "j / 2", "2 / j", "j + 1", "j * 2", "j - j",
+        "-e.PRIM('A')", "+e.PRIM('A')", "(not e.PRIM('A'))", "-j", "(not j)", "-j.vals()", "(e.PRIM('A') > 1)", "(1 == e.PRIM('A'))", "(j.vals() > 1)",
+        "(e.PRIM('A').Select(lambda k: k.pt()) > 1)", "(e.PRIM('A') == e.PRIM('A'))",
+        "round(j.pt(), 2)", "sin(j.pt(), 1)", "sqrt()", "pow(j.pt())", "pow(j.pt(), 2, 3)", "atan2(j.pt())", "fma(j.pt(), 2)",
         "'a' / j.pt()", "j.pt() / 'a'", "'a' + j.pt()", "j.pt() * 'a'",
         "j.vals() + 1", "j.vals() / 2", "1 / j.vals()",
         "e.PRIM('A').Select(lambda k: k.pt()) * 2", "e.PRIM('A').Select(lambda k: k.pt()) / 2",
@@ -1061,8 +1131,21 @@ def c09_programs(backend, tier):
         "ResultTTree(Select(EventDataset('ds'), lambda e: e.PRIM('A').Count()), ('a', 'b'), 't', 'f.root')",
         "ResultTTree(Select(EventDataset('ds'), lambda e: (e.PRIM('A').Count(), e.SEC('B').Count())), 'a', 't', 'f.root')",
         "Select(EventDataset('ds'))",
+        # a dictionary / tuple stream with an explicit label list of the wrong length
+        "ResultTTree(Select(SelectMany(EventDataset('ds'), lambda e: e.PRIM('A')), lambda j: {'pt': j.pt(), 'eta': j.eta()}), ['a'], 't', 'f.root')",
+        "ResultTTree(Select(SelectMany(EventDataset('ds'), lambda e: e.PRIM('A')), lambda j: {'pt': j.pt(), 'eta': j.eta()}), ['a', 'b', 'c'], 't', 'f.root')",
+        "ResultTTree(Select(EventDataset('ds'), lambda e: {'pt': e.PRIM('A').Select(lambda j: j.pt()), 'n': e.PRIM('A').Count()}), 'a', 't', 'f.root')",
+        "ResultTTree(Select(SelectMany(EventDataset('ds'), lambda e: e.PRIM('A')), lambda j: j.pt()), ['a', 'b'], 't', 'f.root')",
+        # same-name blocks with different content, through the whole executor (inject_code and job scripts)
+        "Select(MetaData(MetaData(EventDataset('ds'), {'metadata_type': 'inject_code', 'name': 'b', 'ctor_lines': ['x = 1;']}), {'metadata_type': 'inject_code', 'name': 'b', 'ctor_lines': ['x = 2;']}), lambda e: e.PRIM('A').Count())",
+        "Select(MetaData(MetaData(EventDataset('ds'), {'metadata_type': 'add_job_script', 'name': 'b', 'script': ['x = 1'], 'depends_on': []}), {'metadata_type': 'add_job_script', 'name': 'b', 'script': ['x = 2'], 'depends_on': []}), lambda e: e.PRIM('A').Count())",
+        "Select(MetaData(EventDataset('ds'), {'metadata_type': 'add_job_script', 'name': 'b', 'script': ['x = 1'], 'depends_on': ['never_sent']}), lambda e: e.PRIM('A').Count())",
+        "Select(MetaData(MetaData(EventDataset('ds'), {'metadata_type': 'add_job_script', 'name': 'a', 'script': [], 'depends_on': ['b']}), {'metadata_type': 'add_job_script', 'name': 'b', 'script': [], 'depends_on': ['a']}), lambda e: e.PRIM('A').Count())",
+        "Select(MetaData(EventDataset('ds'), {'metadata_type': 'add_job_script', 'name': 'a', 'script': [], 'depends_on': ['never_sent']}), lambda e: e.PRIM('A').Count())",
     ]
     for q in tops:
+        if "add_job_script" in q and backend != "atlas":
+            continue      # job scripts are an ATLAS facility: the CMS executors never order them
         add(q, ("must_raise", "top"))
     return out
 
@@ -1138,6 +1221,17 @@ def c11_programs(backend):
         ("Select(EventDataset('ds'), lambda e: e.PRIM('A').Select(lambda j: DeltaR(j.eta(), j.phi(), 0.5, 1.0)))", []),
         ("Select(EventDataset('ds'), lambda e: e.PRIM('A').Select(lambda j: e.SEC('B').Where(lambda t: DeltaR(j.eta(), j.phi(), t.eta(), t.phi()) < 1.5).Count()))", []),
         ("Select(EventDataset('ds'), lambda e: e.PRIM('A').Select(lambda j: DeltaR(j.phi(), j.eta(), j.eta(), j.phi())))", []),  # actual texts equal other formals' roles
+    ]
+    # arguments whose translation leaves the generator inside a deeper scope (First, nested sequences): the result variable must
+    # still be visible where the call's value is used
+    qs += [
+        ("Select(Where(EventDataset('ds'), lambda e: e.PRIM('A').Count() > 0), lambda e: twice(e.PRIM('A').First().pt()))", [twice]),
+        ("Select(Where(EventDataset('ds'), lambda e: e.PRIM('A').Count() > 0 and e.SEC('B').Count() > 0), lambda e: addmul(e.PRIM('A').First().pt(), e.SEC('B').First().pt()))", [addmul]),
+        ("Select(Where(EventDataset('ds'), lambda e: e.PRIM('A').Count() > 0), lambda e: addmul(e.PRIM('A').First().pt(), e.PRIM('A').Count()) + 1)", [addmul]),
+        ("Select(Where(EventDataset('ds'), lambda e: e.PRIM('A').Count() > 0 and e.SEC('B').Count() > 0), lambda e: DeltaR(e.PRIM('A').First().eta(), e.PRIM('A').First().phi(), e.SEC('B').First().eta(), e.SEC('B').First().phi()))", []),
+        ("Select(EventDataset('ds'), lambda e: e.PRIM('A').Select(lambda j: twice(e.SEC('B').Where(lambda t: t.pt() > j.pt()).Count())))", [twice]),
+        ("Select(EventDataset('ds'), lambda e: e.PRIM('A').Where(lambda j: j.vals().Count() > 0).Select(lambda j: twice(j.vals().First()) + j.pt()))", [twice]),
+        ("Select(EventDataset('ds'), lambda e: (twice(e.PRIM('A').Count()), e.PRIM('A').Select(lambda j: twice(j.pt()))))", [twice]),
     ]
     for q, fns in qs:
         prog(q, fns, tags=("cppfn",))
